@@ -22,7 +22,8 @@ EXPECT_ENTERED = ['Queue._handle_partial_relay', 'Queue._retry_later',
 BOUNDS = {
     'quick': 'one message, 3 recipients, <=3 attempts, every per-recipient '
              'outcome vector (ok/permanent/transient per recipient per '
-             'attempt) returned as mapping or sequence, 4 backends (dict, '
+             'attempt) returned as mapping or sequence (mapping also with one '
+             'address at two positions), 4 backends (dict, '
              'disk on a fake FS, redis and cloud on fake substrates), backoff '
              'delays symbolic reals >= 0 (0 included); plus schedule cells: '
              'flush() and a duplicate storage wait() announcement at symbolic '
@@ -56,6 +57,11 @@ def cells(tier):
                         'shape': shape})
         out.append({'kind': 'rounds', 'backend': 'dict', 'n': 2, 'rounds': 3,
                     'shape': 'mapping-rev'})
+        # the same address at two positions of the envelope
+        out.append({'kind': 'rounds', 'backend': 'dict', 'n': 3, 'rounds': 2,
+                    'shape': 'mapping', 'dup': 1})
+        out.append({'kind': 'rounds', 'backend': 'disk', 'n': 3, 'rounds': 2,
+                    'shape': 'mapping', 'dup': 1})
         for b in ('disk', 'redis', 'cloud'):
             out.append({'kind': 'inject', 'backend': b, 'n': 2, 'K': 40,
                         'dur': 1})
@@ -123,9 +129,15 @@ def check_attempts(relay, info):
                           expected=sorted(outstanding), **info)
             kind, detail = c['outcome'] or (None, None)
             if kind in (qc.Outcome.MAPPING, qc.Outcome.SEQUENCE):
-                outstanding = [r for r, o in zip(c['rcpts'], detail)
+                pairs = list(zip(c['rcpts'], detail))
+                if kind == qc.Outcome.MAPPING:
+                    # a mapping is keyed by address: an address listed twice
+                    # has one result (the scripted relay keeps the last)
+                    eff = dict(pairs)
+                    pairs = [(r, eff[r]) for r in c['rcpts']]
+                outstanding = [r for r, o in pairs
                                if o != 'ok' and o[0] == 'temp']
-                settled.update(r for r, o in zip(c['rcpts'], detail)
+                settled.update(r for r, o in pairs
                                if o == 'ok' or o[0] == 'perm')
             elif kind in (qc.Outcome.TRANSIENT, qc.Outcome.OTHER):
                 outstanding = list(c['rcpts'])
@@ -181,11 +193,14 @@ def run_rounds(cell):
     queue.start()
     if not cell.get('startup_race'):
         qc.run_until_quiescent()      # start-up load() has completed
-    env = qc.make_envelope('m1', 'sender@z', RCPTS[:n])
+    rc = RCPTS[:n]
+    if cell.get('dup'):
+        rc = [RCPTS[0], RCPTS[1], RCPTS[0]] + RCPTS[2:n - 1]
+    env = qc.make_envelope('m1', 'sender@z', rc)
     res = queue.enqueue(env)
     qc.run_until_quiescent()
     queue.kill()
-    info = dict(backend=cell['backend'], n=n)
+    info = dict(backend=cell['backend'], n=n, dup=cell.get('dup', 0))
     api.observe('attempts', [[c['rcpts'], c['attempts']]
                              for c in relay.calls])
     api.note('errors', list(qc.ERRORS))
